@@ -818,9 +818,9 @@ impl Real {
                         let len_ok = o.length() == b.len();
                         let rt = match <$t>::deserialize(&b) { Ok(x) => &x == o, Err(_) => false };
                         // keys and structures: the model also compares the shape of these bytes with the layout of its own symbolic
-                        // object (`shape=`); encapsulations have no symbolic layout
-                        let sh = if $ty == "enc" { String::new() } else { " shape=1".to_string() };
-                        self.model_line = Some(if $ty == "enc" { format!("wire {} {} x{}", $ty, crate::util::CFG, hex(&b)) } else { format!("wire {} {} x{} {}", $ty, crate::util::CFG, hex(&b), h) });
+                        // object (`shape=`)
+                        let sh = " shape=1".to_string();
+                        self.model_line = Some(format!("wire {} {} x{} {}", $ty, crate::util::CFG, hex(&b), h));
                         if len_ok { format!("ok len={} rt={}{sh}", b.len(), rt as u8) } else { format!("ok len={}!={} rt={}{sh}", o.length(), b.len(), rt as u8) }
                     }};
                 }
